@@ -240,6 +240,28 @@ impl crate::novelty::Subject for S14 {
     }
 }
 
+/// Counters in static memory behind the event decoder (hidden.rs), driven across their wrap-arounds while a cyclic hostile
+/// event history runs under the subject's oracle.  Single-threaded; called before the monitor starts any worker.
+fn event_static_counter_wraps<S: crate::novelty::Subject<Op = Op>>(rep: &mut Report, uni: &[KeyCode]) {
+    let mut rng = Rng::fork(rep.seed, 0x57A7_1C);
+    let ops: Vec<Op> = (0..997).map(|_| random_op(&mut rng, uni, false)).collect();
+    let mut subject = S::fresh();
+    let mut i = 0usize;
+    let mut step = || -> Option<(String, String)> {
+        let op = ops[i];
+        i = (i + 1) % ops.len();
+        match guarded(|| subject.apply(&op)) {
+            Ok(v) => v.map(|(sig, what)| (sig.replacen('|', "|static-counter-wrap|", 1), what)),
+            // a panic is C08's matter; go on with a fresh object
+            Err(_) => {
+                subject = S::fresh();
+                None
+            }
+        }
+    };
+    crate::hidden::counter_wraps(rep, "Keyboard::process_keyevent", &mut step, 2000);
+}
+
 fn run_exploration<S: crate::novelty::Subject<Op = Op>>(rep: &mut Report, uni: &[KeyCode]) {
     let budget = if rep.thorough() { 400_000 } else { 30_000 };
     let ex = crate::novelty::explore::<S>(all_event_ops(uni), |o: &Op| o.show(), budget, n_threads());
@@ -276,6 +298,7 @@ fn c04_sig(pre: u16, mode: HandleControl, op: &Op, want: u16, got: &str) -> Stri
 
 pub fn run_c04(rep: &mut Report) {
     let uni = universe();
+    event_static_counter_wraps::<S04>(rep, &uni);
     let states = closure(&uni, rep);
     rep.states = Some(states.len() as u64);
     rep.count("decoder_states_found_by_bfs", states.len() as u64);
@@ -704,6 +727,7 @@ fn c14_class(calls_desc: &str, got: &str) -> String {
 
 pub fn run_c14(rep: &mut Report) {
     let uni = universe();
+    event_static_counter_wraps::<S14>(rep, &uni);
     let states = closure(&uni, rep);
     rep.states = Some(states.len() as u64);
     rep.count("decoder_states_found_by_bfs", states.len() as u64);
